@@ -108,6 +108,22 @@ prop("C13", kind="sim", quick_runs=4000, thorough_s=600,
      assumptions=["payload domain: schema-conforming subtrees generated by the harness; key leaves are not deleted on their own; shadow paths are not used in requests"])
 
 
+prop("C03", kind="sim", quick_runs=3000, thorough_s=900,
+     rule="one run = one seeded tree v0, a replica built as an independent copy, and a history of 1-4 (thorough: up to 8) steps; each step edits the primary "
+          "(seeded batch of leaf sets/changes/deletes, list entry adds/removes, union member changes, ordered-list reorders) and applies Diff or "
+          "DiffWithAtomic (plain, MapToSinglePath, PreferShadowPath, IgnoreAdditions) of (vi, vi+1) to the replica with UnmarshalNotifications, under a "
+          "fresh seeded map-iteration permutation stream, so the order of deletes/updates inside the notifications is chosen by the simulator; after each "
+          "step replica == vi+1 as leaf sets (and as ordered-list order for DiffWithAtomic), every update/delete is checked for soundness and minimality "
+          "against the harness's models of vi and vi+1, and Diff of equal trees must be empty; distinct = distinct (package, step outcome trace) hashes; "
+          "non-trivial = at least one step changed the tree",
+     fault_kinds=[],
+     probes=["state_changes", "steps_with_deletes", "steps_with_two_or_more_deletes", "steps_with_atomic_notifications", "ordered_list_order_changed",
+             "list_entry_removed", "diff_of_equal_trees", "opt:none", "opt:single", "opt:shadow", "opt:ignoreadd", "mode:plain", "mode:atomic"],
+     assumptions=["excluded with reason: trees containing keyless lists (Diff documents them as unsupported) and ordered lists nested in ordered lists "
+                  "(ygot's gNMI renderer documents them as unsupported)",
+                  "the fault injected here is delivery order: which order Diff's map iterations emit deletes and updates in"])
+
+
 def run_workers(binp, pid, tier, base_seed, total_runs, deadline_s, extra_args=None, env=None, workers=None):
     """Runs hsim over [base_seed, base_seed+total_runs) split across workers. Returns parsed lines."""
     workers = workers or min(NCPU, 16)
@@ -194,7 +210,7 @@ def file_violations(pid, binp, results, info, extra_args=None, env=None):
         with open(path, "w") as f:
             json.dump(doc, f, indent=1)
         d, p = replay_once(binp, pid, path, extra_args, env)
-        if d is None or not d.get("violation") or d["violation"].get("oracle") != v.get("oracle"):
+        if d is None or not d.get("violation") or d["violation"].get("signature") != v.get("signature"):
             internal.append("replay of %s did not reproduce the violation (%s): %s" % (path, v.get("oracle"), (p.stdout + p.stderr)[-1500:]))
             continue
         if k:
